@@ -7,7 +7,13 @@ chunks of at most batch_size; schema.names are the column names.
 ``validate()`` runs identical scenarios through the real pyarrow and the fake."""
 
 
+from vp.harness import unmodelled_attr
+
+
 class FSchema(object):
+    def __getattr__(self, name):
+        unmodelled_attr('pyarrow schema .', name)
+
     def __init__(self, names, types=None):
         self.names = list(names)
         self.types = list(types) if types else [None] * len(self.names)
@@ -19,6 +25,15 @@ class FSchema(object):
 class FArray(object):
     def __init__(self, data):
         self.data = [x for x in data]       # pa.array copies
+
+    def __getattr__(self, name):
+        unmodelled_attr('pyarrow array .', name)
+
+    def __len__(self):
+        return len(self.data)
+
+    def to_pylist(self):
+        return list(self.data)
 
 
 class FBatch(object):
@@ -33,6 +48,27 @@ class FBatch(object):
     def to_pydict(self):
         return {n: list(a.data) for n, a in zip(self.schema.names, self.arrays)}
 
+    def to_pylist(self):
+        return [dict(zip(self.schema.names, r)) for r in self.rows()]
+
+    @property
+    def num_rows(self):
+        return len(self.arrays[0].data) if self.arrays else 0
+
+    @property
+    def num_columns(self):
+        return len(self.arrays)
+
+    @property
+    def columns(self):
+        return list(self.arrays)
+
+    def column(self, i):
+        return self.arrays[self.schema.names.index(i) if isinstance(i, str) else i]
+
+    def __getattr__(self, name):
+        unmodelled_attr('pyarrow record batch .', name)
+
 
 class _RecordBatch(object):
     @staticmethod
@@ -46,15 +82,22 @@ class _RecordBatch(object):
 UNMODELLED = []     # keyword arguments the stub does not model: a harness that sees any must answer 'inconclusive', never 'violation'
 
 
-class FakePA(object):
+class _FakePA(object):
     RecordBatch = _RecordBatch
     Schema = FSchema
+
+    def __getattr__(self, name):
+        UNMODELLED.append('pa.' + name)
+        unmodelled_attr('pyarrow.', name)
 
     @staticmethod
     def array(data, type=None, **kw):
         for k in kw:
             UNMODELLED.append('pa.array(%s=...)' % k)
         return FArray(data)
+
+
+FakePA = _FakePA()
 
 
 class FFile(object):
@@ -93,9 +136,22 @@ class _Writer(object):
         self.f.writes.append(len(rows))
         self.f.rows.extend(rows)
 
+    def write_batch(self, batch, row_group_size=None):
+        self.write(batch, row_group_size)
+
     def close(self):
         self.closed = True
         self.f.writer_closed = True
+
+    def __getattr__(self, name):
+        unmodelled_attr('ParquetWriter.', name)
+
+    def __enter__(self):
+        return self
+
+    def __exit__(self, *a):
+        self.close()
+        return False
 
 
 class _PFile(object):
@@ -116,12 +172,22 @@ class _PFile(object):
     def close(self):
         self.closed = True
 
+    def __getattr__(self, name):
+        unmodelled_attr('ParquetFile.', name)
 
-class FakePQ(object):
+
+class _FakePQ(object):
     ParquetWriter = _Writer
     ParquetFile = _PFile
     FileEncryptionProperties = object
     FileDecryptionProperties = object
+
+    def __getattr__(self, name):
+        UNMODELLED.append('pq.' + name)
+        unmodelled_attr('pyarrow.parquet.', name)
+
+
+FakePQ = _FakePQ()
 
 
 def validate():
